@@ -466,6 +466,9 @@ OPEN_N = [(D, 'ber.decoder::ConstructedPayloadDecoderBase.valueDecoder@open-type
 PROPS['C18']['contracts'] = PROPS['C18']['contracts'] + OPEN_N
 PROPS['C06']['contracts'] = PROPS['C06']['contracts'] + [c for c in WRAPPER if c not in PROPS['C06']['contracts']]
 PROPS['C08']['contracts'] = PROPS['C08']['contracts'] + [c for c in READS[2:4] + ITER if c not in PROPS['C08']['contracts']]
+CREATE = [(D, 'ber.decoder::AbstractSimplePayloadDecoder._createComponent')]
+for _p in ('C10', 'C16', 'C12', 'C01'):
+    PROPS[_p]['contracts'] = PROPS[_p]['contracts'] + CREATE
 for _p in list(PROPS):
     NOT_CLAIMED.pop(_p, None)
 
